@@ -452,7 +452,7 @@ def cmdStrict (args : List String) : String :=
   | [d, i] =>
     match ofHex d, (if i = "-" then some none else (ofHex i).map some) with
     | some data, some index =>
-      match Tdms.Strict.checkWritten data index with
+      match Tdms.Strict.checkWrittenInForce data index with
       | .ok segs => jObj [("ok", "true"), ("segments", jNat segs.length),
           ("objects", jArr (segs.map fun s => jArr (s.objs.map fun o =>
             jObj [("path", jHex o.path),
